@@ -158,7 +158,11 @@ EXPR_FORMS = [
     ("decimal", lambda v, w: str(v)),
     ("binary", lambda v, w: bin(v)),
     ("mask", lambda v, w: f"{hexlit(v, False)}&0xffffff"),
+    ("paren-first", lambda v, w: f"({hexlit(v - 2, False)})+0x02" if v >= 2 else None),
+    ("paren-last", lambda v, w: f"0x02+({hexlit(v - 2, False)})" if v >= 2 else None),
+    ("paren-all", lambda v, w: f"({hexlit(v - 2, False)}+0x02)" if v >= 2 else None),
     ("constant", None),
+    ("macro-twice", "macro"),
 ]
 EXPR_VALUES = {1: [0x12, 0xFE], 2: [0x1234, 0x0100], 3: [0x123456, 0x010000]}
 
@@ -175,6 +179,26 @@ def run_expr(mn, tier):
         for value in EXPR_VALUES[width]:
             for fname, form in EXPR_FORMS:
                 pre = ""
+                if form == "macro":
+                    # the same macro body expanded twice with arguments of different width classes
+                    other = next(((w2, EXPR_VALUES[w2][0]) for w2 in (1, 2, 3)
+                                  if w2 != width and (mn, sid, w2) in supported()), None)
+                    if other is None:
+                        continue
+                    src = (f".macro mm(vv) {{\n{mn} {isa.render_operand(shape, 'vv')}\n}}\nmm({hexlit(other[1], False)})\n"
+                           f"mm({hexlit(value, False)})\n")
+                    out = impl.assemble(src)
+                    n += 1
+                    nt += 1
+                    exp = (isa.encode(isa.lookup(mn, shape, other[0]), other[1], other[0]) +
+                           isa.encode(isa.lookup(mn, shape, width), value, width))
+                    if not out.accepted or out.blocks != [(0, exp)]:
+                        viol.append({"key": f"isa:wrong-bytes:{mn} {sid} w{width} form=macro-twice",
+                                     "msg": f"`{src.replace(chr(10), ' / ')}` must encode as {exp.hex()} but gave {out.brief()}"})
+                        outcomes.add("expr-MACRO-TWICE-WRONG")
+                    else:
+                        outcomes.add("expr-macro-twice-ok")
+                    continue
                 if form is None:
                     text = "kk"
                     pre = f"kk := {hexlit(value, False)}\n"
@@ -182,8 +206,8 @@ def run_expr(mn, tier):
                     text = form(value, width)
                     if text is None:
                         continue
-                if shape == ("", "", "") and text.startswith("("):
-                    continue
+                if shape[0] == "" and fname == "paren-all":
+                    continue  # `mn (expr)` IS the indirect syntax, not a parenthesised direct operand
                 for suffix in ("", {1: ".b", 2: ".w", 3: ".l"}[width]):
                     src = f"{pre}{mn}{suffix} {isa.render_operand(shape, text)}"
                     out = impl.assemble(src)
